@@ -392,7 +392,11 @@ fn create_locales_enum(
     } else {
         quote!()
     };
-    let ld = icu_locid_transform::LocaleDirectionality::new();
+    // the extended likely-subtags data knows the script of less common languages too (`ckb`, `yi`, `dv`, ..),
+    // with the default one their direction is unknown and becomes `Auto`.
+    let ld = icu_locid_transform::LocaleDirectionality::new_with_expander(
+        icu_locid_transform::LocaleExpander::new_extended(),
+    );
 
     let locids = locales
         .iter()
